@@ -2,7 +2,8 @@
    framing readers built from them, on a scripted source (optionally behind a BufReader), with
    the fuel the theorems ask for computed from the source. *)
 From Coq Require Import List NArith Arith Bool.
-From NV Require Import Io.Source Io.ReadExact Io.BufReader Io.FastaScan.
+From NV Require Import Io.Source Io.ReadExact Io.BufReader Io.FastaScan Io.FastaIndex.
+From NV Require Fasta.Layout Fasta.Indexer.
 Import ListNotations.
 
 Definition src_fuel (s : source) (n : nat) : nat :=
@@ -162,3 +163,10 @@ Definition fidx_first_line (cap : nat) (s : source) : sres * nat * nat * bsrc :=
   match read_line src_read cap (b_fuel ([], s) 0) ([], s) with
   | (_, _, _, st1) => consume_sequence_line src_read cap (s_fuel st1) st1 false false 0 0
   end.
+
+(* fasta::fs::index (Indexer::index_record until Ok(None) or an error) on a scripted source behind
+   a BufReader of capacity cap; the three fuels are computed from the source *)
+Definition run_index_file (cap : nat) (s : source)
+  : (list Indexer.fai * option Indexer.ierr) * bsrc :=
+  d_index_loop src_read cap (Datatypes.S (length (Layout.lines (s_data s))))
+    (Datatypes.S (length (s_data s))) (b_fuel ([], s) 0) ([], s) 0%N.
